@@ -132,11 +132,11 @@ Definition legendre_gram_fails_at (advance : nat -> bool) (p : nat) (bP : list Q
   let Ls := leg_polys advance (S p) p C in
   let D := pade_D_poly (S p) p bP in
   leg_lhs_of Ls norms p a b <> leg_rhs_of D a b.
-(* order exactly 2p: exact for total degree <= 2p-1, wrong in the x^p y^p coefficient *)
+(* order exactly 2p: exact for total degree <= 2p-1, wrong in the y^(2p) coefficient *)
 Definition legendre_gram_order_holds (p : nat) (bP : list Q) (C : list (list Q)) (norms : list Q)
   : Prop :=
   legendre_gram_exact_to (fun _ => true) p bP C norms (2 * p - 1)
-  /\ legendre_gram_fails_at (fun _ => true) p bP C norms p p.
+  /\ legendre_gram_fails_at (fun _ => true) p bP C norms 0 (2 * p).
 
 Definition legendre_exact_check (advance : nat -> bool) (p : nat) (bP : list Q)
            (C : list (list Q)) (norms : list Q) (T : nat) : bool :=
